@@ -647,6 +647,14 @@ def search(ctx, rng, budget):
         if not ok:
             hits.append(make_hit(name, args, detail, keyf(args, detail)))
 
+    # radial coefficients as any list-like object (list, tuple, float and integer ndarray)
+    for kind in ('list', 'tuple', 'ndarray', 'int-ndarray'):
+        def okey(A, d, kind=kind):
+            if 'raises IndexError' in d and A[2] in ('ndarray', 'int-ndarray'):
+                return 'C10:angular-outer-ndarray'
+            return 'C10:angular_outer:%s:%s' % (A[2], d[:40])
+        run('angular_outer', (rng.normal(size=int(rng.integers(1, 5))), rng.normal(size=int(rng.integers(2, 5))) * 3, kind),
+            okey, ('outer', kind))
     # directed case: the tolerance of the recorded finding C10:approx-gaussian-exceeds-tol (refuted instance theorem)
     run('approx_gaussian', (0.0187,), ag_key, ('ag', 'recorded'))
     # every class x every placement of a piece relative to the sampled radii (twice in the quick tier, 8 x in thorough)
